@@ -16,7 +16,7 @@ RULE = ("the C01 renderable-tree specs plus renderables without a measure method
         "line separators) for the widest-word / widest-line identities. Non-trivial: depth >=1 and "
         "minimum < maximum; distinct by (spec, width).")
 ASSUMPTIONS = ["structural minimum as in C01", "a 'line' of a text is a maximal run without '\\n'; words are split at whitespace"]
-REQUIRED = ["mon.text_rendered_at_reported", "mon.bounds_contract", "mon.render_at_max", "mon.render_at_min", "mon.text_identities", "mon.text_not_wrapped_at_max"]
+REQUIRED = ["mon.text_rendered_at_reported", "mon.bounds_contract", "mon.render_at_max", "mon.render_at_min", "mon.text_identities", "mon.text_not_wrapped_at_max", "mon.render_with_options_narrower_than_console"]
 MIN_NONTRIVIAL = {"quick": 2000, "thorough": 100000}
 
 _installed = False
